@@ -1,0 +1,16 @@
+//go:build verif
+
+package cache
+
+import "sync/atomic"
+
+// VerifHook, when set, is called at the named points of Transaction.With and
+// Transaction.Commit so that a verification harness can widen or force
+// interleavings there. It must not call back into the cache package.
+var VerifHook atomic.Pointer[func(point, name string)]
+
+func verifPoint(point, name string) {
+	if f := VerifHook.Load(); f != nil {
+		(*f)(point, name)
+	}
+}
